@@ -41,7 +41,38 @@ static void do_coeffs()
     printf("end\n");
 }
 
+
+// rot <id> <n> <it> <mapmode:0|1> <angle> <qmin> <qmax> <pmin> <pmax> ; data (n*n)
+// prints: par cos sin d0 d1 z0 z1 ; ax (n) ; ay (n) ; table (n*n*it*it idx w, only mapmode 1) ; out (n*n)
+static void do_rot()
+{
+    std::string id = next();
+    unsigned n = nextl(), it = nextl(), mapmode = nextl();
+    float angle = nextf();
+    float qmin = nextf(), qmax = nextf(), pmin = nextf(), pmax = nextf();
+    auto in = mkps(n, 1, qmin, qmax, pmin, pmax);
+    auto out = mkps(n, 1, qmin, qmax, pmin, pmax);
+    for (size_t i = 0; i < (size_t)n * n; i++) in->getData()[i] = nextf();
+    RotationMap rm(in, out, n, n, angle, static_cast<SourceMap::InterpolationType>(it), false,
+                   mapmode ? n * n : 0, nullptr);
+    rm.apply();
+    printf("case %s\npar", id.c_str());
+    pf(rm._cos_dt); pf(rm._sin_dt);
+    pf(rm._axis[0]->delta()); pf(rm._axis[1]->delta());
+    pf(rm._axis[0]->zerobin()); pf(rm._axis[1]->zerobin());
+    printf("\nax");
+    for (unsigned i = 0; i < n; i++) pf(rm._axis[0]->at(i));
+    printf("\nay");
+    for (unsigned i = 0; i < n; i++) pf(rm._axis[1]->at(i));
+    printf("\ntable");
+    if (mapmode)
+        for (size_t k = 0; k < (size_t)n * n * it * it; k++) { printf(" %u", rm._hinfo[k].index); pf(rm._hinfo[k].weight); }
+    printf("\nout");
+    for (size_t i = 0; i < (size_t)n * n; i++) pf(out->getData()[i]);
+    printf("\nend\n");
+}
+
 int main(int argc, char** argv)
 {
-    return run_main(argc, argv, {{"kick", do_kick}, {"coeffs", do_coeffs}});
+    return run_main(argc, argv, {{"kick", do_kick}, {"coeffs", do_coeffs}, {"rot", do_rot}});
 }
